@@ -25,7 +25,12 @@ package cache
 // ResolveComment: the bug handed back is the one that holds the comment handed back, and that comment's
 // combined id starts with the given prefix (C13: "resolves to that comment and its bug, never to another").
 //@ func (*RepoCacheBug).ResolveComment
-//@   props C13
+//@   props C13 C18
+//@   opt locks
+//@   opt pre_only_if=locks
+//@   requires [not-held] c.SubCache != nil && sync.rwheld[&c.SubCache.mu] == 0
+//@   stable all(RepoCacheBug.SubCache)
+//@   ensures [lock-balanced] forall m *sync.RWMutex :: { sync.rwheld[m] } sync.rwheld[m] == old(sync.rwheld[m])
 //@   modifies nothing
 //@   opt trusted_frame
 //@   let comments = result.Snapshot().Comments
@@ -116,12 +121,15 @@ package cache
 // entity that came with the report - also when an older instance was already loaded (C02: "the entity handed
 // back ... is the merged result"; C11: "later edits made through the cache build on the merged history").
 //@ func (*SubCache).MergeAll$1
-//@   props C07 C11 C02
+//@   props C07 C11 C02 C18
+//@   opt locks
+//@   requires [not-held] sc != nil && sync.rwheld[&sc.mu] == 0
 //@   nopanic typeassert
 //@   recvinv results: (elem.Status == entity.MergeStatusNew || elem.Status == entity.MergeStatusUpdated) && elem.Err == nil ==> implements(elem.Entity, EntityT)
 //@   let n = recvcount(results)
 //@   let last = recvat(results, n - 1)
 //@   loop 1
+//@     invariant [lock-free-between-results] sync.rwheld[&sc.mu] == 0
 //@     invariant [merged-entity-is-cached] n > 0 && (last.Status == entity.MergeStatusNew || last.Status == entity.MergeStatusUpdated) && last.Err == nil ==> (last.Id in sc.cached) && cachedFrom[sc.cached[last.Id]] == last.Entity
 
 // ---- resolving by prefix / matcher (C13) ---------------------------------------------------------------
@@ -467,3 +475,15 @@ package cache
 //@   props C12
 //@   modifies nothing
 //@   ensures result == (len(excerpt.Labels) == 0)
+
+//@ func (*RepoCacheBug).ValidLabels
+//@   props C18
+//@   opt locks
+//@   stable all(RepoCacheBug.SubCache)
+//@   requires [not-held] c.SubCache != nil && sync.rwheld[&c.SubCache.mu] == 0
+//@   ensures [lock-balanced] forall m *sync.RWMutex :: { sync.rwheld[m] } sync.rwheld[m] == old(sync.rwheld[m])
+//@ func (*SubCache).Load
+//@   props C18
+//@   opt locks
+//@   requires [not-held] sc != nil && sync.rwheld[&sc.mu] == 0
+//@   ensures [lock-balanced] forall m *sync.RWMutex :: { sync.rwheld[m] } sync.rwheld[m] == old(sync.rwheld[m])
